@@ -351,6 +351,7 @@ def run_property(pid, tier, seed, replay=None):
     known_hit = collections.OrderedDict()
     violations = []
     unsupported = 0
+    not_applicable = 0
     tagdist = collections.Counter()
     mtagdist = collections.Counter()
     distinct_nontrivial = set()
@@ -371,7 +372,12 @@ def run_property(pid, tier, seed, replay=None):
             distinct_nontrivial.add(hashlib.blake2b(ln.encode(), digest_size=8).digest())
         if len(samples) < 6 and nontrivial and (i % max(1, len(lines) // 6) == 0 or len(lines) < 12):
             samples.append({"request": ln[:400], "model": mo[:300], "implementation": io[:300], "tag": tag})
-        agree = (ios == mo)
+        if ios == "n/a":
+            # the implementation side has nothing to say about this request on this tree (e.g. a private helper the
+            # request addresses no longer exists under that name): not compared
+            not_applicable += 1
+            continue
+        agree = mod.responses_agree(mo, ios) if hasattr(mod, "responses_agree") else (ios == mo)
         verdict = None
         try:
             verdict = mod.oracle(ln, ios) if hasattr(mod, "oracle") else None
@@ -438,7 +444,7 @@ def run_property(pid, tier, seed, replay=None):
                 vd = mod.oracle(l2, io2) if hasattr(mod, "oracle") else None
                 if _kind == "failing-input" and hasattr(mod, "oracle") and v["oracle"] is False:
                     return vd is False
-                return io2 != mo2
+                return not (mod.responses_agree(mo2, io2) if hasattr(mod, "responses_agree") else io2 == mo2)
             try:
                 line = shr(line, still)
             except Exception:  # noqa: BLE001
@@ -473,7 +479,9 @@ def run_property(pid, tier, seed, replay=None):
                             "theorems": sorted(proof["theorems"])})
         printed.append(f"VIOLATION property={pid} replay={rel} no-failing-input-found")
 
-    evaluated = len(lines) - unsupported
+    if lines and not_applicable > 0.5 * len(lines):
+        raise BrokenCheck(f"{not_applicable}/{len(lines)} requests had nothing to be compared with")
+    evaluated = len(lines) - unsupported - not_applicable
     if lines and unsupported > 0.05 * len(lines):
         raise BrokenCheck(f"{unsupported}/{len(lines)} cases unsupported by the model")
 
@@ -496,7 +504,7 @@ def run_property(pid, tier, seed, replay=None):
             "evaluations": evaluated, "distinct_nontrivial": len(distinct_nontrivial),
             "rule": getattr(mod, "RULE", ""), "samples": samples,
             "input_tags": dict(tagdist), "model_response_kinds": dict(mtagdist),
-            "skipped_unsupported": unsupported, "corpus_cases": n_corpus,
+            "skipped_unsupported": unsupported, "skipped_not_applicable": not_applicable, "corpus_cases": n_corpus,
             "known_findings_reobserved": list(known_hit.keys()),
             "effective_tier": eff_tier,
         },
